@@ -435,6 +435,65 @@ def r8_op_id_maps(ctx):
       ctx.check(R, ok, fo.node, fo, f'map {m}, position {pos} -> {[o.short() for o in outs]}', f'must return {want}: the first original op whose current position is >= the insert position, else len(map)')
 
 
+def r17_new_tensor_names(ctx, R='C01.R17'):
+  """Tensor names are unique model-wide on input (checked by the generator).
+  A new tensor stays unique only if its name is built from the name of ONE
+  existing tensor plus a suffix no other creation site uses: a fixed name, or a
+  name shared per subgraph, repeats as soon as the transformation is applied
+  twice (two operators, two subgraphs)."""
+  rs = ctx.rule(R, 'every new tensor is named <name of an existing tensor> + <suffix>, with a suffix no other creation site uses', floor=10)
+  cg = callgraph.get(ctx)
+  creators = ('add_new_activation_tensor', 'add_new_constant_tensor')
+  suffixes = {}
+
+  def name_expr_ok(f, e, depth=0):
+    """-> (ok, suffix or None, text)"""
+    if isinstance(e, ast.BinOp) and isinstance(e.op, ast.Add) and isinstance(e.right, ast.Constant) and isinstance(e.right.value, (bytes, str)) \
+        and isinstance(e.left, ast.Attribute) and e.left.attr == 'name':
+      return True, e.right.value, ast.unparse(e)
+    if isinstance(e, ast.Name) and depth < 3:
+      defs = [d for d in defuse.own_assignments(f.node).get(e.id, []) if d is not None]
+      if len(defs) == 1:
+        return name_expr_ok(f, defs[0], depth + 1)
+      if e.id in f.pos_params:
+        k = f.pos_params.index(e.id)
+        res = []
+        for caller_fq, sites in cg.sites.items():
+          for s in sites:
+            if any(c.fq == f.fq for c in s.callees):
+              arg = s.node.args[k] if k < len(s.node.args) else next((kw.value for kw in s.node.keywords if kw.arg == e.id), None)
+              if arg is not None:
+                res.append(name_expr_ok(ctx.repo.func(caller_fq), arg, depth + 1))
+        if res and all(r[0] for r in res):
+          return True, None, ' | '.join(r[2] for r in res)
+        if res:
+          bad = next(r for r in res if not r[0])
+          return False, None, bad[2]
+    return False, None, ast.unparse(e)
+  for m in ctx.repo.modules.values():
+    if not m.short.startswith('transformations'):
+      continue
+    for f in m.functions.values():
+      for c in common.calls_in(f.node):
+        nm = common.call_name(c).split('.')[-1]
+        if nm not in creators or f.name in creators:
+          continue
+        ctx.instance(R)
+        arg = c.args[0] if c.args else next((k.value for k in c.keywords if k.arg == 'tensor_name'), None)
+        if arg is None:
+          ctx.check(R, False, c, f, c, 'new tensor without a name')
+          continue
+        ok, suffix, text = name_expr_ok(f, arg)
+        ctx.check(R, ok, c, f, f'{nm}({text[:60]}, ...)',
+                  f'the new tensor is named `{text[:80]}`, not <existing tensor>.name + <suffix>: the name repeats when the transformation is applied again (another operator / subgraph), and results, statistics and validation are keyed by name')
+        if ok and suffix is not None:
+          suffixes.setdefault(suffix, []).append((f, c))
+  for sfx, sites in suffixes.items():
+    if len(sites) > 1:
+      f, c = sites[1]
+      ctx.check(R, False, c, f, f'suffix {sfx!r}', f'suffix {sfx!r} is used by {len(sites)} creation sites ({", ".join(sorted({x[0].name for x in sites}))}): two tensors derived from one source get the same name')
+
+
 def run(ctx):
   r1_name_uniqueness(ctx)
   r2_instruction_validity(ctx)
@@ -445,6 +504,7 @@ def run(ctx):
   r7_no_truthiness_on_ids(ctx)
   r8_op_id_maps(ctx)
   r10_grouping_table(ctx)
+  r17_new_tensor_names(ctx)
   shared.rule_performer_translation(ctx, 'C01.R12')
   shared.rule_performer_simulation(ctx, 'C01.R14')
   shared.rule_graph_rewrite_simulation(ctx, 'C01.R15')
